@@ -347,6 +347,11 @@ def py_rules(res):
             if isinstance(n2, ast.If) and pyfront.unparse(n2.test) in (
                     "%s is self" % other, "self is %s" % other):
                 in_else = [l for l in loops if any(l is x for b in n2.orelse for x in ast.walk(b))]
+                # guard clause: the aliased case returns early, the loops follow
+                if n2.body and isinstance(n2.body[-1], (ast.Return, ast.Raise)) and n2 in f.body:
+                    after = f.body[f.body.index(n2) + 1:]
+                    in_else += [l for l in loops if l not in in_else and
+                                any(l is x for b in after for x in ast.walk(b))]
                 clears = any(isinstance(c, ast.Call) and pyfront.unparse(c.func) == "self.clear"
                              for b in n2.body for c in ast.walk(b))
                 if loops and len(in_else) == len(loops) and clears:
@@ -491,9 +496,22 @@ def py_rules(res):
                        "kept, so the result of a set operation can contain "
                        "duplicate keys", path=[]))
     # the sorted copy, never the operand itself
+    # names that denote the operand itself: the parameter and plain aliases of
+    # it (a list built by sorted()/list()/a literal is a fresh object)
+    operand = set(a.arg for a in init.args.args[1:2])
+    changed = True
+    while changed:
+        changed = False
+        for a in ast.walk(init):
+            if isinstance(a, ast.Assign) and isinstance(a.value, ast.Name) and a.value.id in operand:
+                for t in a.targets:
+                    if isinstance(t, ast.Name) and t.id not in operand:
+                        operand.add(t.id)
+                        changed = True
     for c in ast.walk(init):
         if isinstance(c, ast.Call) and isinstance(c.func, ast.Attribute) and \
-                c.func.attr in ("sort", "reverse", "append", "remove", "pop", "clear"):
+                c.func.attr in ("sort", "reverse", "append", "remove", "pop", "clear", "extend", "insert") and \
+                isinstance(c.func.value, ast.Name) and c.func.value.id in operand:
             res.findings.add(dict(
                 rule="FRESH-ONLY", function="_SetIteration.__init__", file=REL, line=c.lineno,
                 construct="%s on the operand" % pyfront.unparse(c)[:50],
